@@ -117,6 +117,7 @@ func runC18(p *Prog, r *Report) {
 					var srcs []ssa.Value
 					timerSources(sel.States[arm].Chan, map[ssa.Value]bool{}, &srcs)
 					okSrc := true
+					hasClosedQ := false
 					var afters []*ssa.Call
 					why := ""
 					for _, s := range srcs {
@@ -134,6 +135,7 @@ func runC18(p *Prog, r *Report) {
 							switch g.Name() {
 							case "nilQ":
 							case "closedQ":
+								hasClosedQ = true
 								if mn != "SendMsg" {
 									okSrc, why = false, "closed channel used on the receive side"
 								}
@@ -162,6 +164,15 @@ func runC18(p *Prog, r *Report) {
 						}
 						r.Check(match, R, base+"/after-arg", p.InstrPos(a), "time.After("+arg+") uses the field SetOption("+opt+") stores", fmt.Sprintf("time.After(%s) does not use the field that SetOption(%s) stores (%v): wrong deadline applied", arg, opt, want))
 						r.Check(hasAtom(p.GuardStrings(a), arg+" > 0"), R, base+"/after-guard", p.InstrPos(a), "armed only when "+arg+" > 0", "time.After("+arg+") is not guarded by "+arg+" > 0: a zero deadline (= no limit) would time out at once / a negative one fire early: guards "+strings.Join(p.GuardStrings(a), "; "))
+						if mn == "SendMsg" && hasClosedQ {
+							be := false
+							for _, g := range p.GuardStrings(a) {
+								if strings.HasPrefix(g, "!") && strings.Contains(strings.ToLower(g), "besteffort") {
+									be = true
+								}
+							}
+							r.Check(be, R, base+"/besteffort-overrides-deadline", p.InstrPos(a), "the deadline timer is armed only when best-effort is off", "with best-effort AND a send deadline set, the send waits on the deadline timer instead of the never-blocking channel: a best-effort send blocks for the whole deadline under back-pressure: guards "+strings.Join(p.GuardStrings(a), "; "))
+						}
 						inLoop := innermostLoopHead(a.Block(), reach) != nil
 						r.Check(!inLoop, R, base+"/armed-once", p.InstrPos(a), "armed once per call", "time.After is inside the wait loop: every wake-up (queue resize) restarts the deadline, so the call can hang beyond it")
 					}
